@@ -351,15 +351,28 @@ class FactBase:
                 if new in used:
                     continue
                 f1 = fp_raw(cur[new])
+                # moved, not renamed: the item (with its type, for a method) now lives in another module of the crate under the same name
+                k = 2 if f0['dk'] == 'AssocFn' else 1
+                moved = new.split('::')[-k:] == old.split('::')[-k:] and new.split('::')[0] == old.split('::')[0]
+                if moved:
+                    def module_of(pth):
+                        segs = pth.split('::')
+                        i = next((n_ for n_, sg in enumerate(segs) if sg.startswith('{impl')), len(segs) - k)
+                        return '::'.join(segs[:i]) + '::'
+                    om, nm = module_of(old), module_of(new)
+                    back = lambda x: x.replace(nm, om) if isinstance(x, str) else x
+                    f1 = dict(f1, impl_self=back(f1['impl_self']), impl_trait=back(f1['impl_trait']), sig=[back(x) for x in f1['sig']])
                 if (f1['dk'], f1['impl_self'], f1['impl_trait'], f1['argc']) != (f0['dk'], f0['impl_self'], f0['impl_trait'], f0['argc']):
                     continue
                 same_parent = new.rsplit('::', 1)[0] == f0['parent']
-                if not same_parent and not (f0['impl_self'] and f1['file'] == f0['file']):
+                if not same_parent and not moved and not (f0['impl_self'] and f1['file'] == f0['file']):
                     continue
                 if [x.replace(new, old) for x in f1['sig']] != f0['sig'] and f1['sig'] != f0['sig']:
                     continue
                 a, b = set(f0['calls']), f1['calls']
                 j = len(a & b) / len(a | b) if (a | b) else 1.0
+                if moved:
+                    j = max(j, 0.6)      # same crate, owner, name and signature: it IS that item, however its body was reorganised on the way
                 if j > score:
                     best, score = new, j
             if best is not None and score >= 0.6:
@@ -393,7 +406,16 @@ class FactBase:
         for a in self.adts(name, ctype):
             if strip_generics(a['id']) == nid:
                 return a
+        # a type that was moved to another module of its crate keeps its name: the only type of that name in the crate is that type
+        same = [a for a in self.adts(name, ctype) if strip_generics(a['id']).split('::')[-1] == nid.split('::')[-1]]
+        if len(same) == 1:
+            self.renamed.setdefault(nid, strip_generics(same[0]['id']))
+            return same[0]
         return None
+
+    def adt_path(self, name, nid, ctype='Rlib'):
+        a = self.adt(name, nid, ctype)
+        return strip_generics(a['id']) if a else nid
 
     def impls(self, name, ctype='Rlib'):
         return self.crate(name, ctype)['impls']
